@@ -33,6 +33,7 @@ REL = nnm.REL
 
 def run(chk):
     idx = chk.idx
+    R.rule_stateless(chk, "C01.R8")  # first: its refutations stand even if a later rule cannot read the code
     reg = nnm.registry(idx)
     fl = nnm.flow(idx, reg)
     chk.explain(
